@@ -38,6 +38,8 @@ pub enum BinaryRequest {
     QuitQuietly(binary::QuitRequest),
     ItemTooLarge(binary::SetRequest),
     Stats(binary::StatsRequest),
+    /// A protocol command this server does not implement (touch, GAT, SASL)
+    NotSupported(binary::Request),
 }
 
 impl BinaryRequest {
@@ -70,6 +72,7 @@ impl BinaryRequest {
 
             BinaryRequest::Noop(request)
             | BinaryRequest::Version(request)
+            | BinaryRequest::NotSupported(request)
             | BinaryRequest::Stats(request) => &request.header,
 
             BinaryRequest::Flush(request) | BinaryRequest::FlushQuietly(request) => &request.header,
@@ -286,7 +289,12 @@ impl MemcacheBinaryCodec {
             | Some(binary::Command::SaslListMechs)
             | Some(binary::Command::SaslStep) => {
                 error!("Command not supported, opcode: {:?}", self.header.opcode);
-                Ok(None)
+                // take the whole frame out of the buffer and let the handler
+                // answer it with an error
+                src.advance(self.header.body_length as usize);
+                Ok(Some(BinaryRequest::NotSupported(binary::Request {
+                    header: self.header,
+                })))
             }
 
             Some(binary::Command::OpCodeMax) => {
